@@ -219,12 +219,131 @@ fn run(items: Vec<(PipeSpec, &'static str)>, indices: &[u64], profile: &str) -> 
         .collect()
 }
 
+// ------------------------------------------------------------------------------------------
+// byte-level FASTA texts (the C16 input front) under both builds: every byte value may occur in a
+// sequence line, in particular the non-letters above '@' (`[ \ ] ^ _ \` { | } ~`, DEL) and bytes
+// >= 0x80, which the letter tables are indexed with
+
+use super::c16::{self, FilesRun};
+
+/// every 16th run index is a text run
+fn is_text(index: u64) -> bool {
+    index % 16 == 12
+}
+
+fn text_run(base_seed: u64, index: u64) -> FilesRun {
+    let (_, mut run) = c16::c16_run(base_seed ^ 0xC18, index);
+    let mut r = seed::Rng::new(seed::run_seed(base_seed ^ 0xC18, index) ^ 0x7E87);
+    let rate = *r.pick(&[50u64, 200, 1000]);
+    for f in run.files.iter_mut() {
+        let mut b = f.bytes();
+        let mut line_start = true;
+        let mut in_header = false;
+        for x in b.iter_mut() {
+            if line_start {
+                in_header = *x == b'>';
+            }
+            line_start = *x == b'\n';
+            if !in_header && *x != b'\n' && *x != b'\r' && r.below(rate) == 0 {
+                *x = match r.below(4) {
+                    0 => *r.pick(&[0x5Bu8, 0x5C, 0x5D, 0x5E, 0x5F, 0x60, 0x7B, 0x7C, 0x7D, 0x7E, 0x7F, 0x40]),
+                    1 => r.range(0x80, 0xFF) as u8,
+                    2 => r.range(0x21, 0x7E) as u8,
+                    _ => *x,
+                };
+                if *x == b'>' {
+                    *x = b'<';
+                }
+            }
+        }
+        *f = c16::FileSpec::text(f.path.clone(), &b);
+    }
+    run
+}
+
+fn judge_text(run: &FilesRun, out: c16::FilesOutcome, index: u64, profile: &str) -> RunReport {
+    let mut r = RunReport::default();
+    r.evaluations = 1;
+    r.nontrivial = out.tasks >= 2 && out.preemptions >= 1;
+    r.digest = out.trace_digest;
+    r.count("workload.text_bytes", 1);
+    let mut h = Sha256::new();
+    let summary;
+    let mut overflow: Option<String> = None;
+    match &out.outcome {
+        Outcome::Done => match out.create.as_ref().unwrap() {
+            Ok(()) => {
+                let bytes = out.world.get_file(pipeline::ARCHIVE_PATH).unwrap_or_default();
+                h.update(b"ok");
+                h.update(&bytes);
+                let (ex, _) = c16::extract_all(out.world);
+                let tail = match ex {
+                    Ok(e) => {
+                        h.update(format!("{e:?}").as_bytes());
+                        "extracted".to_string()
+                    }
+                    Err((c, d)) => {
+                        h.update(c.as_bytes());
+                        if is_overflow(&d) {
+                            overflow = Some(format!("reader: {d}"));
+                        }
+                        format!("extraction {c}")
+                    }
+                };
+                summary = format!("create Ok, archive {} bytes sha {}; {tail}", bytes.len(), &hex(&Sha256::digest(&bytes))[..16]);
+                r.count("create_ok", 1);
+            }
+            Err(e) => {
+                h.update(b"err");
+                summary = format!("create Err: {}", &e[..e.len().min(120)]);
+                r.count("create_err", 1);
+            }
+        },
+        Outcome::Deadlock(_) => {
+            h.update(b"deadlock");
+            summary = "deadlock".into();
+        }
+        Outcome::MaxSteps(_) => {
+            h.update(b"maxsteps");
+            summary = "step budget".into();
+        }
+        Outcome::Panic(m) => {
+            h.update(b"panic");
+            summary = format!("panic: {}", &m[..m.len().min(160)]);
+            r.count("panics", 1);
+            if is_overflow(m) {
+                overflow = Some(format!("create: {m}"));
+            }
+        }
+    }
+    let d = h.finalize();
+    let td = u64::from_le_bytes(d[..8].try_into().unwrap());
+    r.transcript = Some((index, td, summary));
+    if let Some(m) = overflow {
+        r.violations.push(Violation {
+            property: "C18".into(),
+            class: "overflow-panic".into(),
+            detail: format!("[{profile} build] {m}"),
+            spec: json!({"kind": "text", "text": run, "index": index}),
+            engine: "pipeline-sim".into(),
+            index,
+            event_log_digest: td,
+        });
+    }
+    r
+}
+
+fn run_texts(runs: Vec<FilesRun>, indices: &[u64], profile: &str) -> Vec<RunReport> {
+    let outs = c16::run_files(&runs);
+    outs.into_iter().zip(runs.iter().zip(indices)).map(|(o, (run, &i))| judge_text(run, o, i, profile)).collect()
+}
+
 impl Prop for C18 {
     fn id(&self) -> &'static str { "C18" }
     fn engine(&self) -> &'static str { "pipeline-sim x 2 build profiles" }
     fn level(&self) -> &'static str { "exploration" }
     fn rule(&self) -> &'static str {
-        "each evaluation = one seeded run spec (workloads of the C01, C04 and C14 spaces incl. >= pack-cardinality contigs in one file, queue capacities below one contig, the library-API driver, verbosity 0..3, truncated archives; length and range queries on the reader) executed twice, by the release build and by the same build with overflow-checks and debug-assertions on, under the SAME recorded seed-derived schedule; oracle: equal transcripts (Ok/Err of create, archive SHA-256, round-trip verdict, answers of the length/range queries, verdict per truncation point) and no arithmetic-overflow panic in the checked run. distinct_nontrivial = distinct schedule-trace digests among runs with >=2 tasks and >=1 preemption."
+        "each evaluation = one seeded run spec (workloads of the C01, C04 and C14 spaces incl. >= pack-cardinality contigs in one file, queue capacities below one contig, the library-API driver, verbosity 0..3, truncated archives; length and range queries on the reader; one run in 16 feeds byte-level FASTA texts in which any byte value may occur in a sequence line) executed twice, by the release build and by the same build with overflow-checks and debug-assertions on, under the SAME recorded seed-derived schedule; oracle: equal transcripts (Ok/Err of create, archive SHA-256, round-trip verdict, answers of the length/range queries, verdict per truncation point) and no arithmetic-overflow panic in the checked run. distinct_nontrivial = distinct schedule-trace digests among runs with >=2 tasks and >=1 preemption."
     }
     fn runs(&self, tier: Tier) -> u64 {
         match tier { Tier::Quick => 16_000, Tier::Thorough => 500_000 }
@@ -232,15 +351,28 @@ impl Prop for C18 {
     fn profiles(&self) -> Vec<&'static str> { vec!["fast", "checked"] }
     fn compare_profiles(&self) -> bool { true }
     fn run_chunk(&self, ctx: &Ctx, indices: &[u64]) -> Vec<RunReport> {
-        let items: Vec<(PipeSpec, &'static str)> = indices.iter().map(|&i| spec_for(ctx.base_seed, i)).collect();
-        run(items, indices, ctx.profile)
+        let (ti, pi): (Vec<u64>, Vec<u64>) = indices.iter().partition(|&&i| is_text(i));
+        let items: Vec<(PipeSpec, &'static str)> = pi.iter().map(|&i| spec_for(ctx.base_seed, i)).collect();
+        let mut out = run(items, &pi, ctx.profile);
+        if !ti.is_empty() {
+            let runs: Vec<FilesRun> = ti.iter().map(|&i| text_run(ctx.base_seed, i)).collect();
+            out.extend(run_texts(runs, &ti, ctx.profile));
+        }
+        out
     }
     fn replay(&self, ctx: &Ctx, spec: &Value) -> RunReport {
+        if spec["kind"] == json!("text") {
+            let run: FilesRun = serde_json::from_value(spec["text"].clone()).expect("bad C18 text spec");
+            return run_texts(vec![run], &[spec["index"].as_u64().unwrap_or(0)], ctx.profile).pop().unwrap();
+        }
         let kind: &'static str = match spec["kind"].as_str() { Some("c04") => "c04", Some("c14") => "c14", _ => "c01" };
         let s: PipeSpec = serde_json::from_value(spec["spec"].clone()).expect("bad C18 spec");
         run(vec![(s, kind)], &[spec["index"].as_u64().unwrap_or(0)], ctx.profile).pop().unwrap()
     }
     fn divergence_spec(&self, ctx: &Ctx, index: u64) -> Value {
+        if is_text(index) {
+            return json!({"kind": "text", "text": text_run(ctx.base_seed, index), "index": index});
+        }
         let (s, kind) = spec_for(ctx.base_seed, index);
         json!({"kind": kind, "spec": s, "index": index})
     }
